@@ -39,6 +39,19 @@ class Obligation:
 
 
 FEAS_TIMEOUT_MS = 5000
+STR_FEAS_TIMEOUT_MS = 400
+
+
+def _has_strings(t, depth=0) -> bool:
+    try:
+        if z3.is_string(t) or z3.is_seq(t):
+            return True
+    except Exception:  # noqa: BLE001
+        return False
+    if depth > 6 or not z3.is_expr(t):
+        return False
+    return any(_has_strings(c, depth + 1) for c in t.children())
+
 OBL_TIMEOUT_MS = 20000
 
 
@@ -64,6 +77,7 @@ class State:
         self.input_terms: dict[str, object] = {}   # name -> z3 term (for model extraction)
         self.trace_base = 0
         self.solver_time = 0.0
+        self.uses_strings = False
         self.events: list[str] = []
 
     # -------------------------------------------------------------- names / refs
@@ -93,10 +107,15 @@ class State:
 
     def _check(self, extra) -> str:
         t0 = time.time()
+        # string constraints: feasibility is only an optimisation (unknown = feasible), keep it cheap
+        if self.uses_strings or _has_strings(extra):
+            self.uses_strings = True
+            self.solver.set("timeout", STR_FEAS_TIMEOUT_MS)
         self.solver.push()
         self.solver.add(extra)
         r = self.solver.check()
         self.solver.pop()
+        self.solver.set("timeout", FEAS_TIMEOUT_MS)
         self.solver_time += time.time() - t0
         return str(r)
 
